@@ -37,7 +37,8 @@ CONSTANTS Mode,
           WriteSizes,     \* slice lengths offered to write() (0 = empty write)
           SinkCaps,       \* the sink accepts min(request, c) bytes per call, c in SinkCaps
           Buffered, WriteAll,
-          R, Dists        \* delta: ring size (power of two), distances explored (1..R)
+          R, Dists,       \* delta: ring size (power of two), distances explored (1..R)
+          Role            \* delta: "w" | "r" - the writer and the reader machine are explored separately
 
 VARIABLES len, heads, r, w, d
 vars == <<len, heads, r, w, d>>
@@ -175,14 +176,14 @@ EncodeRun(s, x, n, acc) ==
   ELSE EncodeRun(DeltaStep(s, x), x + 1, n - 1, Append(acc, <<x, SlotRead(s)>>))
 
 DWrite(n, c) ==   \* DeltaWriter::write(&data[fed .. fed+n]), the sink accepts at most c bytes
-  /\ Mode = "delta" /\ d.pc = "idle" /\ n >= 1 /\ n <= len - d.fed
+  /\ Mode = "delta" /\ Role = "w" /\ d.pc = "idle" /\ n >= 1 /\ n <= len - d.fed
   /\ LET e == EncodeRun(d, d.fed, n, <<>>)
          m == IF WriteAll \/ c >= n THEN n ELSE c
      IN d' = [e[1] EXCEPT !.fed = d.fed + m, !.sunk = d.sunk \o SubSeq(e[2], 1, m)]
   /\ UNCHANGED <<len, heads, r, w>>
 
 DRead(n) ==       \* DeltaReader::read: n bytes of the canonical encoding arrive and are decoded in place
-  /\ Mode = "delta" /\ d.pc = "idle" /\ n >= 1 /\ n <= len - d.rdn
+  /\ Mode = "delta" /\ Role = "r" /\ d.pc = "idle" /\ n >= 1 /\ n <= len - d.rdn
   /\ LET e == EncodeRun([d EXCEPT !.pos = d.pos], d.rdn, n, <<>>)
          want == [k \in 1..n |-> IF d.rdn + k - 1 >= d.dist THEN d.rdn + k - 1 - d.dist ELSE -1]
      IN d' = [e[1] EXCEPT !.rdn = d.rdn + n,
@@ -194,12 +195,10 @@ DChoose(n, dist) ==
   /\ len' = n /\ d' = [d EXCEPT !.pc = "idle", !.dist = dist]
   /\ UNCHANGED <<heads, r, w>>
 
-\* the writer machine and the reader machine are explored separately (Role)
-CONSTANT Role      \* "w" | "r" (delta only)
 DNext ==
   \/ \E n \in Lens : \E x \in Dists : DChoose(n, x)
-  \/ (Role = "w" /\ \E n \in WriteSizes : \E c \in SinkCaps : DWrite(n, c))
-  \/ (Role = "r" /\ \E n \in ReadSizes : DRead(n))
+  \/ \E n \in WriteSizes : \E c \in SinkCaps : DWrite(n, c)
+  \/ \E n \in ReadSizes : DRead(n)
 
 \* ------------------------------------------------------------------ specification
 Init == /\ len = 0 /\ heads = << >>
